@@ -13,7 +13,8 @@ pixel array; nothing is bounded.
   unclipped `lowpass − boxcar` value when that is ≥ threshold and 0 otherwise;
 * `bandpass_homogeneous` — scaling image and threshold by `c > 0` scales the result by `c`;
 * `bandpass_transpose` (2-D, executable transpose), `bandpass_swap_axes` (any dimension, two
-  adjacent axes) — commutes with transposition (parameters exchanged with the axes);
+  adjacent axes), `bandpass_permute_axes(_pixel)` (any product of such exchanges) — commutes with
+  transposition (parameters exchanged with the axes);
 * `lowpass_is_convolution*`, `boxcar_is_box_mean*` (2-D explicit double sums; `_nd`: any
   dimension) — the axis-by-axis passes are the correlation with the outer-product kernel on the
   zero-extended image, resp. the mean over the `Π mₐ` box on the edge-replicated image;
